@@ -13,5 +13,6 @@ CONSTANTS
   ExportMode = "none"
   SampleMod = 1
   SampleRes = 0
+  NearMod = 1
 INVARIANTS InputWellFormed ImplSound ImplComplete GateSound HashStable HashSensitive Conform
 CHECK_DEADLOCK FALSE
